@@ -166,7 +166,8 @@ def wl_panel(ctx, rng, case_no):
             body = mid.strip(box.top) if box.top != " " else mid
             shown = body.strip()
             # title characters in order (cropped when it does not fit)
-            if not (title_plain.startswith(shown.rstrip("…")) or shown == title_plain):
+            # (a cut that falls inside a double-width character leaves a blank in its place)
+            if not (title_plain.startswith(shown.rstrip("…").rstrip(" ")) or shown == title_plain):
                 ctx.violation("panel-title-characters-wrong", dict(wit, shown=shown, title=title_plain))
                 continue
             if shown == title_plain and cellref.width(title_plain) + 4 <= L - 2 and box.top != " ":
